@@ -375,8 +375,11 @@ def check_property(pid, tier, seed, repo_src, verif, jobs=16, only=None, verbose
         'wall_s': wall,
         'violations': len(violations),
     }
-    os.makedirs(os.path.join(verif, 'evidence'), exist_ok=True)
-    json.dump(ev, open(os.path.join(verif, 'evidence', f'{pid}.json'), 'w'), indent=1, default=str)
+    # evidence describes /repo itself; a run against a scratch copy (VERIF_REPO=<worktree>, seeded-change evaluation) must
+    # never overwrite it
+    evdir = 'evidence' if os.path.realpath(os.environ.get('VERIF_REPO', '/repo')) == '/repo' else 'evidence_scratch'
+    os.makedirs(os.path.join(verif, evdir), exist_ok=True)
+    json.dump(ev, open(os.path.join(verif, evdir, f'{pid}.json'), 'w'), indent=1, default=str)
 
     for line in kf_lines:
         print(line)
